@@ -21,6 +21,7 @@ import (
 	"time"
 
 	"github.com/irai/packet"
+	"github.com/irai/packet/fastlog"
 	"verifharness/vh"
 )
 
@@ -94,8 +95,7 @@ func (d *driver) patch() {
 // deliver hands a frame to Session.Parse the way the packet loop would.
 func (d *driver) deliver(b []byte) (packet.Frame, error) {
 	if d.shared {
-		d.scribbleNow() // the previous frame is dead once the loop reads the next one
-		n := copy(d.rx[:cap(d.rx)], b)
+		n := copy(d.rx[:cap(d.rx)], b) // the previous frame is dead once the loop reads the next one
 		return d.s.Parse(d.rx[:n])
 	}
 	cp := make([]byte, len(b), len(b)+d.brng.Intn(64))
@@ -108,6 +108,11 @@ func (d *driver) deliver(b []byte) (packet.Frame, error) {
 // views point into it: that is the documented zero-copy contract, not retained state).
 func (d *driver) scribble() {
 	if !d.shared || d.hasFr {
+		return
+	}
+	// half of the time the buffer is simply left as it is: the next frame overwrites its beginning,
+	// as in a real receive loop ("overwrite only"); otherwise it is filled with a pattern
+	if d.brng.Intn(2) == 0 {
 		return
 	}
 	d.scribbleNow()
@@ -499,6 +504,15 @@ func main() {
 				probe, offline, purge = a.i("probe"), a.i("offline"), a.i("purge")
 			}
 			d.nodrain = a.i("nodrain") == 1
+			// the process-global log level must not influence tracking: vary it per behaviour (output is discarded)
+			switch d.brng.Intn(4) {
+			case 0:
+				packet.Logger.SetLevel(fastlog.LevelInfo)
+			case 1:
+				packet.Logger.SetLevel(fastlog.LevelDebug)
+			default:
+				packet.Logger.SetLevel(fastlog.LevelError)
+			}
 			if err := d.reset(a.i("cfg"), probe, offline, purge); err != nil {
 				fmt.Fprintln(os.Stderr, "session:", err)
 				os.Exit(2)
